@@ -171,6 +171,23 @@ def r6_iterated_join(chk):
         both_reversed = xt in (f"reversed({aps})", f"{aps}[::-1]") and yt in (f"reversed({combo})", f"{combo}[::-1]")
         ok = norm(idx) == ap_ and sub_arg == s_ and ((shifted and yt == combo) or both_reversed)
         how = f"zip({xt}, {yt}) with index {norm(idx)}"
+        # order-independent form with a running list: `shift = len([p for p in consumed if p < ap])`, `consumed.append(ap)` once per join
+        if not ok and xt == aps and yt == combo and sub_arg == s_ and isinstance(idx, ast.BinOp) and isinstance(idx.op, ast.Sub) and norm(idx.left) == ap_:
+            S = idx.right
+            if isinstance(S, ast.Name):   # a local named in the loop body (the running list itself must stay a name)
+                ds = [st.value for st in l.body if isinstance(st, ast.Assign) and len(st.targets) == 1 and norm(st.targets[0]) == S.id]
+                S = ds[0] if len(ds) == 1 else S
+            comp = S.args[0] if isinstance(S, ast.Call) and call_name(S) in ("sum", "len") and len(S.args) == 1 and isinstance(S.args[0], (ast.GeneratorExp, ast.ListComp)) else None
+            if comp is not None and len(comp.generators) == 1 and isinstance(comp.generators[0].iter, ast.Name):
+                g = comp.generators[0]
+                L, p_ = g.iter.id, norm(g.target)
+                conds = [norm(c) for c in g.ifs] + [norm(comp.elt)]
+                appended = [st for st in l.body if isinstance(st, ast.Expr) and isinstance(st.value, ast.Call) and norm(st.value.func) == f"{L}.append" and len(st.value.args) == 1 and norm(st.value.args[0]) == ap_]
+                other_uses = [st for st in walk_no_nested(f.node) if isinstance(st, (ast.Assign, ast.AugAssign)) and L in {n_.id for t_ in (st.targets if isinstance(st, ast.Assign) else [st.target]) for n_ in ast.walk(t_) if isinstance(n_, ast.Name)}]
+                fresh = len(other_uses) == 1 and isinstance(other_uses[0], ast.Assign) and norm(other_uses[0].value) in ("[]", "list()") and not any(x is other_uses[0] for x in ast.walk(l))
+                if len(appended) == 1 and fresh and any(c in (f"{p_} < {ap_}", f"{ap_} > {p_}") for c in conds):
+                    ok, order_free = True, True
+                    how = f"zip({xt}, {yt}) with index {ap_} - #(attachment points consumed so far that lie below {ap_})"
     else:
         raise AnalysisError(f"_ml_assemble: join loop `for {norm(tg)} in {norm(it)}` - unknown idiom")
     chk.decide(ok, "C12.R6", key, f.where(jc), how,
@@ -196,6 +213,10 @@ def r6_iterated_join(chk):
                             v = genv.single(nm.id)
                             if v is not None and any(isinstance(y, ast.Call) and (call_name(y) or "").endswith(("index_atom", "get_atom_index")) for y in ast.walk(v)):
                                 srcs.append(v)
+            if order_free and len(srcs) != 1:
+                chk.note(f"C12.R6: where {g.qualname} takes the attachment indices it hands to _ml_assemble from was not found; no verdict on the label order at that call site")
+                chk.ok("C12.R6", f"{f.key}:attachment-indices-in-label-order", g.where(c), "not classified (noted)")
+                continue
             chk.require(len(srcs) == 1, f"{g.key}: where the attachment indices handed to _ml_assemble come from was not found")
             branches = [srcs[0].body, srcs[0].orelse] if isinstance(srcs[0], ast.IfExp) else [srcs[0]]
 
